@@ -121,3 +121,107 @@ Theorem C15_payload_fields_unvalidated : forall order_tp e e',
     validate_msgs order_tp (DEnum e) = validate_msgs order_tp (DEnum e').
 Proof. exact payload_fields_of_named_variants_unvalidated. Qed.
 Print Assumptions C15_payload_fields_unvalidated.
+
+(* ---- rule 5 (Lemmas/Rules3.v): a second default instruction, or a second one dedicated to the same counterpart, wherever the two stand ---- *)
+From O2o.Lemmas Require Import Rules3.
+
+Theorem C15_rule5_default_ghosts_twice : forall order_tp d msgs l1 a l2 b l3 k,
+    validate_msgs order_tp d = Ok msgs -> d_ghosts (dt_get_attrs d) = l1 ++ a :: l2 ++ b :: l3 ->
+    appl_get (ga_appl a) k = true -> appl_get (ga_appl b) k = true -> sg_ty (ga_core a) = None -> sg_ty (ga_core b) = None ->
+    In "There can be at most one default #[ghosts(...)] instruction."%string msgs.
+Proof. exact rule_default_ghosts_twice. Qed.
+Print Assumptions C15_rule5_default_ghosts_twice.
+
+Theorem C15_rule5_dedicated_ghosts_twice : forall order_tp d msgs l1 a l2 b l3 k ta tb,
+    validate_msgs order_tp d = Ok msgs -> d_ghosts (dt_get_attrs d) = l1 ++ a :: l2 ++ b :: l3 ->
+    appl_get (ga_appl a) k = true -> appl_get (ga_appl b) k = true -> sg_ty (ga_core a) = Some ta -> sg_ty (ga_core b) = Some tb ->
+    tp_eqb tb ta = true ->
+    In (dedicated_twice_msg "ghosts" tb) msgs.
+Proof. exact rule_dedicated_ghosts_twice. Qed.
+Print Assumptions C15_rule5_dedicated_ghosts_twice.
+
+Theorem C15_rule5_default_where_twice : forall order_tp d msgs l1 a l2 b l3,
+    validate_msgs order_tp d = Ok msgs -> d_where (dt_get_attrs d) = l1 ++ a :: l2 ++ b :: l3 ->
+    wa_ty a = None -> wa_ty b = None ->
+    In "There can be at most one default #[where_clause(...)] instruction."%string msgs.
+Proof. exact rule_default_where_twice. Qed.
+Print Assumptions C15_rule5_default_where_twice.
+
+Theorem C15_rule5_dedicated_where_twice : forall order_tp d msgs l1 a l2 b l3 ta tb,
+    validate_msgs order_tp d = Ok msgs -> d_where (dt_get_attrs d) = l1 ++ a :: l2 ++ b :: l3 ->
+    wa_ty a = Some ta -> wa_ty b = Some tb -> tp_eqb tb ta = true ->
+    In (dedicated_twice_msg "where_clause" tb) msgs.
+Proof. exact rule_dedicated_where_twice. Qed.
+Print Assumptions C15_rule5_dedicated_where_twice.
+
+Theorem C15_rule5_default_child_parents_twice : forall order_tp d msgs l1 a l2 b l3,
+    validate_msgs order_tp d = Ok msgs -> d_child_parents (dt_get_attrs d) = l1 ++ a :: l2 ++ b :: l3 ->
+    ca_ty a = None -> ca_ty b = None ->
+    In "There can be at most one default #[child_parents(...)] instruction."%string msgs.
+Proof. exact rule_default_child_parents_twice. Qed.
+Print Assumptions C15_rule5_default_child_parents_twice.
+
+Theorem C15_rule5_dedicated_child_parents_twice : forall order_tp d msgs l1 a l2 b l3 ta tb,
+    validate_msgs order_tp d = Ok msgs -> d_child_parents (dt_get_attrs d) = l1 ++ a :: l2 ++ b :: l3 ->
+    ca_ty a = Some ta -> ca_ty b = Some tb -> tp_eqb tb ta = true ->
+    In (dedicated_twice_msg "child_parents" tb) msgs.
+Proof. exact rule_dedicated_child_parents_twice. Qed.
+Print Assumptions C15_rule5_dedicated_child_parents_twice.
+
+(* member level: #[parent] on any field of a struct ... *)
+Theorem C15_rule5_default_parent_twice : forall order_tp s msgs f l1 a l2 b l3,
+    validate_msgs order_tp (DStruct s) = Ok msgs -> In f (s_fields s) -> m_parent (f_attrs f) = l1 ++ a :: l2 ++ b :: l3 ->
+    pa_ty a = None -> pa_ty b = None ->
+    In "There can be at most one default #[parent(...)] instruction for a given member."%string msgs.
+Proof. exact rule_default_parent_twice. Qed.
+Print Assumptions C15_rule5_default_parent_twice.
+
+Theorem C15_rule5_dedicated_parent_twice : forall order_tp s msgs f l1 a l2 b l3 ta tb,
+    validate_msgs order_tp (DStruct s) = Ok msgs -> In f (s_fields s) -> m_parent (f_attrs f) = l1 ++ a :: l2 ++ b :: l3 ->
+    pa_ty a = Some ta -> pa_ty b = Some tb -> tp_eqb tb ta = true ->
+    In (dedicated_twice_msg "parent" tb) msgs.
+Proof. exact rule_dedicated_parent_twice. Qed.
+Print Assumptions C15_rule5_dedicated_parent_twice.
+
+(* ... literal / pattern / type_hint on any variant of an enum *)
+Theorem C15_rule5_default_variant_instr_twice : forall order_tp e msgs v,
+    validate_msgs order_tp (DEnum e) = Ok msgs -> In v (e_variants e) ->
+    (forall l1 a l2 b l3, m_lit (v_attrs v) = l1 ++ a :: l2 ++ b :: l3 -> lp_ty a = None -> lp_ty b = None ->
+       In "There can be at most one default #[literal(...)] instruction for a given member."%string msgs) /\
+    (forall l1 a l2 b l3, m_pat (v_attrs v) = l1 ++ a :: l2 ++ b :: l3 -> lp_ty a = None -> lp_ty b = None ->
+       In "There can be at most one default #[pattern(...)] instruction for a given member."%string msgs) /\
+    (forall l1 a l2 b l3, m_hint (v_attrs v) = l1 ++ a :: l2 ++ b :: l3 -> th_ty a = None -> th_ty b = None ->
+       In "There can be at most one default #[type_hint(...)] instruction for a given member."%string msgs).
+Proof. exact rule_default_variant_instr_twice. Qed.
+Print Assumptions C15_rule5_default_variant_instr_twice.
+
+Theorem C15_rule5_dedicated_variant_instr_twice : forall order_tp e msgs v,
+    validate_msgs order_tp (DEnum e) = Ok msgs -> In v (e_variants e) ->
+    (forall l1 a l2 b l3 ta tb, m_lit (v_attrs v) = l1 ++ a :: l2 ++ b :: l3 -> lp_ty a = Some ta -> lp_ty b = Some tb -> tp_eqb tb ta = true ->
+       In (dedicated_twice_msg "literal" tb) msgs) /\
+    (forall l1 a l2 b l3 ta tb, m_pat (v_attrs v) = l1 ++ a :: l2 ++ b :: l3 -> lp_ty a = Some ta -> lp_ty b = Some tb -> tp_eqb tb ta = true ->
+       In (dedicated_twice_msg "pattern" tb) msgs) /\
+    (forall l1 a l2 b l3 ta tb, m_hint (v_attrs v) = l1 ++ a :: l2 ++ b :: l3 -> th_ty a = Some ta -> th_ty b = Some tb -> tp_eqb tb ta = true ->
+       In (dedicated_twice_msg "type_hint" tb) msgs).
+Proof. exact rule_dedicated_variant_instr_twice. Qed.
+Print Assumptions C15_rule5_dedicated_variant_instr_twice.
+
+(* ---- rule 6: every misplaced / misnamed / unsupported instruction the parser recorded is reported - at type level, on any field
+   of a struct, on any variant of an enum, whatever else is wrong with the input ---- *)
+Theorem C15_rule6_type_level : forall order_tp d msgs e,
+    validate_msgs order_tp d = Ok msgs -> In e (d_errs (dt_get_attrs d)) ->
+    exists m, dt_error_msg (match d with DEnum _ => true | _ => false end) e = Some m /\ In m msgs.
+Proof. exact rule_type_level_error_instr_reported. Qed.
+Print Assumptions C15_rule6_type_level.
+
+Theorem C15_rule6_field : forall order_tp s msgs f e,
+    validate_msgs order_tp (DStruct s) = Ok msgs -> In f (s_fields s) -> In e (m_errs (f_attrs f)) ->
+    exists m, member_error_msg false e = Some m /\ In m msgs.
+Proof. exact rule_field_error_instr_reported. Qed.
+Print Assumptions C15_rule6_field.
+
+Theorem C15_rule6_variant : forall order_tp en msgs v e,
+    validate_msgs order_tp (DEnum en) = Ok msgs -> In v (e_variants en) -> In e (m_errs (v_attrs v)) ->
+    exists m, member_error_msg true e = Some m /\ In m msgs.
+Proof. exact rule_variant_error_instr_reported. Qed.
+Print Assumptions C15_rule6_variant.
